@@ -242,7 +242,11 @@ int a_str_catv(a_str *ctx, char const *fmt, va_list va)
     mem = ctx->num_ + (a_size)(res + 1);
     if (mem > ctx->mem_)
     {
-        if (A_UNLIKELY(a_str_setm_(ctx, mem))) { return 0; }
+        if (A_UNLIKELY(a_str_setm_(ctx, mem)))
+        {
+            if (ctx->num_ < ctx->mem_) { *ptr = 0; }
+            return 0;
+        }
         ptr = ctx->ptr_ + ctx->num_;
         mem = ctx->mem_ - ctx->num_;
         res = vsnprintf(ptr, mem, fmt, va);
